@@ -81,6 +81,9 @@ RulesDeny == RulesApply /\ RulesMode \in {"audit", "enforce"} /\ ~Rbac
 Reached == ~o.trav /\ ~o.prov /\ ~LookupFails /\ ~(Over /\ o.framing = "cl")   \* the request reaches authorization
 P_C11_EnforceBlocks == (IsObs /\ ~Unspecified /\ Reached /\ RulesDeny /\ RulesMode = "enforce") =>
                           (o.status = 403 /\ ~o.relayed /\ o.strayBytes = 0)
+\* "nothing is relayed" needs no qualification: whatever else goes wrong with such a request (the policy lookup
+\* fails, the body is over the limit, the path is malformed), a request the rules in force deny never reaches the host
+P_C11_EnforceNeverRelays == (IsObs /\ ~Unspecified /\ RulesDeny /\ RulesMode = "enforce") => (~o.relayed /\ o.strayBytes = 0)
 \* (hostFault # "none": the mock host dropped the connection after reading the request; the client then sees 502/503)
 P_C11_AuditForwards == (IsObs /\ ~Unspecified /\ Reached /\ RulesDeny /\ RulesMode = "audit" /\ ~Over /\ o.hostFault = "none" /\ ~o.upstreamClosed) =>
                           (o.relayed /\ o.bodyIntact /\ o.status = o.hostStatus)
